@@ -19,7 +19,8 @@ RULE = ("each case: SDMF/MDMF, k<=3, N<=6 on N..N+2 servers; a writer performs 2
         "with contents padded beyond what a survey prefetches so that the fetch really goes back to the servers; the surveys it runs are delimited by observing "
         "ServermapUpdater.update, and: it returns a published version; not one older than a version its last survey located with k distinct shares on servers still "
         "reachable at the end; and if any of its surveys was shown a version newer than the one returned, its last survey asked every server reachable at the end. Non-trivial = at least two versions with different sequence numbers are present "
-        "on the servers at read time; distinct by whole case.")
+        "on the servers at read time; distinct by whole case."
+        " Added step: modify() raced by another client's overwrite issued from inside the modifier (every Retrieve the modifying client builds must be for the best recoverable version of the servermap it is given).")
 LEVEL_TEXT = "Random histories and schedules; what each client was shown is recorded at the wire, so the oracles do not depend on client-internal state."
 ASSUMPTIONS = ["one writer at a time (C12 covers races)", "servers are honest except for going offline and being rolled back to shares they held earlier",
                "'located' = answers delivered to the surveying client before its survey completed (the harness stops delivering at that moment; for the plain read, between the start and the end of each ServermapUpdater.update)"]
